@@ -94,6 +94,13 @@ CLAIMED = {
             'range test; the arithmetic constructors reject non-linear products and bad divisors by throwing; the logic tables and createTheory cover every Logic_t '
             'enumerator; polymorphic constructors check operand sorts. Decides that the gates exist and reject, not that accepted input is answered correctly.',
             'static analysis: ASSERT-ONLY / rejecting-branch rule, exhaustiveness and table-agreement rules over the type-checked AST (assert expansions tagged, -UNDEBUG)', ''),
+    'C23': ('other',
+            'Static absence-of-source rules over all built units: no scalar member read while never written anywhere in the program (whole-program write set), no iteration over '
+            'pointer-keyed containers (typedefs expanded), no pointer-to-integer conversion or pointer printing, clock/memory/pid values reach control flow only in the '
+            'listed explicit time-budget functions (interprocedural taint), libc randomness only after a constant/configured seed and per-instance PRNG seeds, pipe framing '
+            'independent of read() chunking (shared with C20); thorough tier adds clang\'s definite-uninitialised-use dataflow over every unit. Necessary conditions of '
+            'reproducibility; other undefined behaviour is not decided.',
+            'static analysis: whole-program def/use of members, type-based container rule, interprocedural taint from clock sources to branch conditions, seed provenance rule', ''),
 }
 
 NOT_APPLICABLE = {
